@@ -22,6 +22,7 @@ mod c09;
 mod c11;
 mod c12;
 mod c13;
+mod c14;
 mod sendsys;
 mod chan;
 
@@ -80,6 +81,7 @@ fn main() {
             "C11" => c11::replay(&v["replay"]),
             "C12" => c12::replay(&v["replay"]),
             "C13" => c13::replay(&v["replay"]),
+            "C14" => c14::replay(&v["replay"]),
             _ => {
                 eprintln!("no replay for {}", id);
                 std::process::exit(2);
@@ -108,6 +110,7 @@ fn main() {
             "C11" => c11::run(thorough),
             "C12" => c12::run(thorough),
             "C13" => c13::run(thorough),
+            "C14" => c14::run(thorough),
             other => {
                 eprintln!("unknown check {}", other);
                 2
